@@ -109,7 +109,7 @@ class ProxyRaw(io.RawIOBase):
         self._ch = ch
         self._path = str(path)
         self._raw = io.FileIO(path, mode)
-        self._writing = "w" in mode or "a" in mode or "+" in mode
+        self._writing = "w" in mode or "a" in mode or "+" in mode or "x" in mode
 
     def readable(self):
         return self._raw.readable()
@@ -162,11 +162,11 @@ def make_open(ch):
         ch.boundary("open:" + mode, str(file))
         if "b" not in mode:
             raw = ProxyRaw(ch, file, mode.replace("t", ""))
-            buf = io.BufferedWriter(raw) if ("w" in mode or "a" in mode) else io.BufferedReader(raw)
+            buf = io.BufferedWriter(raw) if ("w" in mode or "a" in mode or "x" in mode) else io.BufferedReader(raw)
             return io.TextIOWrapper(buf, encoding=k.get("encoding"), newline=k.get("newline"))
         m = mode.replace("b", "")
         raw = ProxyRaw(ch, file, m)
-        if "w" in m or "a" in m:
+        if "w" in m or "a" in m or "x" in m:
             return io.BufferedWriter(raw)
         return io.BufferedReader(raw)
 
